@@ -178,7 +178,7 @@ theorem readI4_lt {e bs n r} (h : Binary.readI e 4 bs = .ok (n, r)) : n < 2 ^ 63
   | fuel => simp [h1] at h
 
 theorem checkSize_asUsize {n r k} (h : Binary.checkSize n r = .ok k) (hn : n < 2 ^ 63) : Binary.asUsize n = k := by
-  obtain ⟨_, h0, rfl⟩ := Binary.checkSize_ok h
+  obtain ⟨_, h0, rfl⟩ := Binary.checkSize_inv h
   exact asUsize_of_nonneg n h0 hn
 
 theorem rawCollBegin_of_read {bs x r} (h : Compact.readCollBegin bs = .ok (x, r)) : rawCollBegin bs = .ok (x, r) := by
@@ -197,7 +197,7 @@ theorem rawCollBegin_of_read {bs x r} (h : Compact.readCollBegin bs = .ok (x, r)
         cases h3 : Binary.checkSize ((hb : Int) / 16) r0 with
         | ok k =>
           simp [h3] at h
-          obtain ⟨_, h0, hk⟩ := Binary.checkSize_ok h3
+          obtain ⟨_, h0, hk⟩ := Binary.checkSize_inv h3
           have : k = hb / 16 := by omega
           subst this; simp [h]
         | err k => simp [h3] at h
@@ -233,7 +233,7 @@ theorem rawCMapBegin_of_read {bs x r} (h : Compact.readMapBegin bs = .ok (x, r))
     | ok cnt =>
       simp only [h2] at h
       have hc := checkSize_asUsize h2 (toS4_lt n).1
-      obtain ⟨_, h0, hk⟩ := Binary.checkSize_ok h2
+      obtain ⟨_, h0, hk⟩ := Binary.checkSize_inv h2
       by_cases hz : cnt = 0
       · have : toS 4 n = 0 := by omega
         simp [hz] at h; simp [this, h]
